@@ -240,6 +240,20 @@ func (obj *Flavor) inheritFlavor(cf *Flavor) {
 	}
 }
 
+// isInitable returns true if the keyword names a variable listed as initable
+// by the flavor or by one of the flavors it inherits from.
+func (obj *Flavor) isInitable(key string) bool {
+	if obj.initable[key] {
+		return true
+	}
+	for _, cf := range obj.inherit {
+		if cf.initable[key] {
+			return true
+		}
+	}
+	return false
+}
+
 func (obj *Flavor) calledFromLISP() bool {
 	_, file, _, ok := runtime.Caller(2)
 
@@ -311,7 +325,7 @@ func (obj *Flavor) Describe(b []byte, indent, right int, ansi bool) []byte {
 			b = append(b, k...)
 			b = append(b, " = "...)
 			b = slip.Append(b, obj.defaultVars[k])
-			if obj.initable[":"+k] {
+			if obj.isInitable(":" + k) {
 				b = append(b, " (initable)"...)
 			}
 			b = append(b, '\n')
